@@ -1201,6 +1201,142 @@ def stream_neutralize(ctx, pool, programs):
 
 
 # ------------------------------------------------------------------------------------------------
+# round 5 (held-out change): competing matches built FROM the rule tables
+# ------------------------------------------------------------------------------------------------
+
+COMPETE_EDITS = ['O', 'N', 'S', 'F', 'ethyl']
+LABEL_FIELDS = ('element', 'charge', 'radical', 'D', 'z', 'x', 'h', 'rings')
+
+
+def _glue(rec, hub, rng, edit):
+    """two instantiations of one pattern sharing the image of pattern atom `hub`; one substituent of the second copy is then
+    edited (element O / N / S / F, or lengthened to ethyl), so that the two competing environments are NOT equivalent."""
+    i1, i2 = instantiate(rec, rng), instantiate(rec, rng)
+    if i1 is None or i2 is None or i1[0][hub] != i2[0][hub]:
+        return None
+    pat_atoms = {n for n, _ in rec['atoms']}
+    # substituents the generator hung on the hub itself: the second copy's pattern neighbours take their places
+    def hub_fill(inst):
+        return [y if x == hub else x for x, y, _o in inst[1] if hub in (x, y) and (y if x == hub else x) not in pat_atoms]
+    d2 = sum(1 for x, y, o in i2[1] if hub in (x, y) and (y if x == hub else x) in pat_atoms and o != 8)
+    drop1 = set(hub_fill(i1)[:d2])
+    drop2 = set(hub_fill(i2))
+    shift = max(max(i1[0]), max(i2[0])) + 1
+    atoms = {n: v for n, v in i1[0].items() if n not in drop1}
+    bonds = [(a, b, o) for a, b, o in i1[1] if a not in drop1 and b not in drop1]
+    for n, v in i2[0].items():
+        if n != hub and n not in drop2:
+            atoms[n + shift] = v
+    for a, b, o in i2[1]:
+        if a in drop2 or b in drop2:
+            continue
+        bonds.append((hub if a == hub else a + shift, hub if b == hub else b + shift, o))
+    f2 = [f + shift for f in i2[2] if f not in drop2]
+    if not f2:
+        return None
+    f = rng.choice(f2)
+    if edit == 'ethyl':
+        k = max(atoms) + 1
+        atoms[k] = (6, 0, False)
+        bonds.append((f, k, 1))
+    else:
+        atoms[f] = ({'O': 8, 'N': 7, 'S': 16, 'F': 9}[edit], 0, False)
+    return atoms, bonds
+
+
+def competition_instances(ctx):
+    """for EVERY rule of the three tables and every pattern atom the rule rewrites: a molecule in which two matches of the rule
+    share that atom while their other ends carry different substituents (hetero atom vs carbon, longer chain). Which of the
+    competing matches wins may only depend on the structure - by the order of the rules in the table or by the patterns -, never
+    on the atom numbers. Built from the regenerated table records, confirmed by the real matcher. [(label, mol, (table, idx))]"""
+    tabs = real_tables()
+    rng = ctx.rng
+    out = []
+    for tname, recs in _state['std'].items():
+        for idx, rec in enumerate(recs):
+            touched = sorted({n for n, *_ in rec['atom_fix']} | {x for a, b, _ in rec['bonds_fix'] for x in (a, b)})
+            kinds = dict(rec['atoms'])
+            pat = tabs[tname][idx][0]
+            charged = {n for n, a in rec['atoms'] if a['charge'] or a['radical']}
+            for hub in touched:
+                if kinds[hub]['kind'] == 'metal' or not charged <= {hub}:
+                    # the copies may not add a second charged / radical centre: molecules with several interacting ion or
+                    # radical centres are outside this generator's domain (design/C14.md, Round 5)
+                    continue
+                edits = rng.sample(COMPETE_EDITS, 3) if ctx.quick else COMPETE_EDITS
+                for edit in edits:
+                    for attempt in range(4 if ctx.quick else 8):
+                        g = _glue(rec, hub, rng, edit)
+                        if g is None:
+                            continue
+                        try:
+                            mol = build(*g)
+                            sets = {frozenset(mp[n] for n in touched) for mp in pat.get_mapping(mol, automorphism_filter=False)}
+                        except Exception:
+                            continue
+                        if len(sets) >= 2 and any(x != y and x & y for x in sets for y in sets):
+                            out.append((f'compete:{tname}[{idx}]@{hub}:{edit}', mol, (tname, idx)))
+                            break
+    return out
+
+
+def _atom_labels(a):
+    return (a.atomic_number, a.charge, a.is_radical, a.neighbors, a.hybridization, a.heteroatoms, a.implicit_hydrogens,
+            tuple(sorted(a.ring_sizes)))
+
+
+def competition_oracle(ints, rng, k):
+    """standardize / canonicalize (tautomer fixing off) of the molecule and of `k` renumbered copies give one structure."""
+    m0, _ = wire.ints_to_mol(ints, calc=True)
+    out = []
+    for op in ('standardize', 'canonicalize'):
+        try:
+            a = m0.copy()
+            apply_op(op, a, False)
+            for _ in range(k):
+                b, mapping = molgen.renumber(rng, m0)
+                apply_op(op, b, False)
+                if not same_structure(a, b):
+                    out.append((op, 'renumbering', f'{canon(a)} vs {canon(b)} (mapping {mapping})'))
+                    break
+        except Exception as e:
+            out.append((op, 'never-fails', f'{type(e).__name__}: {e}'))
+    return out
+
+
+def competition_signature(ints):
+    """which rule, applied alone, already depends on the numbering here - and do the atoms its competing matches would rewrite
+    differ in anything a query atom can see (element, charge, radical, D, z, x, h, ring sizes)? If they do not, the matcher's
+    first match decides among atoms no pattern and no rule order could tell apart: the recorded mechanism
+    `first-match-among-indistinguishable`. If they do, the table is expected to decide (by rule order / constraints)."""
+    m0, _ = wire.ints_to_mol(ints, calc=True)
+    m0.clean_stereo()
+    names = pattern_names()
+    out = []
+    for text in renumber_culprits(ints):
+        if text == 'fix_resonance':
+            out.append('C14/fix_resonance/renumbering' if competing_resonance_pairs(ints) else 'C14/fix_resonance/renumbering/no-competing-pairs')
+            continue
+        t, i = names[text]
+        rec = _state['std'][t][i]
+        touched = sorted({n for n, *_ in rec['atom_fix']} | {x for a, b, _ in rec['bonds_fix'] for x in (a, b)})
+        try:
+            maps = list(real_tables()[t][i][0].get_mapping(m0, automorphism_filter=False))
+        except Exception:
+            maps = []
+        diff = set()
+        for u in touched:
+            labs = sorted({_atom_labels(m0.atom(mp[u])) for mp in maps}, key=repr)
+            for x in labs[1:]:
+                diff.update(LABEL_FIELDS[j] for j in range(len(LABEL_FIELDS)) if x[j] != labs[0][j])
+        if len(maps) >= 2 and not diff:
+            out.append('C14/standardize/renumbering/first-match-among-indistinguishable')
+        else:
+            out.append(f'C14/standardize/renumbering/{text}' + ('/distinguishable' if diff else ''))
+    return out or ['C14/standardize/renumbering/competing-matches']
+
+
+# ------------------------------------------------------------------------------------------------
 # round 5: exact `_neutralize` (both keep_charge values, donors / acceptors compared) and `standardize_charges`
 # ------------------------------------------------------------------------------------------------
 
@@ -2204,6 +2340,19 @@ def relational(ctx, pool, programs):
             for sg in (signature(ints, op, check, False) if check == 'renumbering' else [sig(op, check)]):
                 ctx.fail(sg, f'{op} on {lab} [{str(mol)}]: {check}: {detail}',
                          {'kind': 'dipole', 'wire': ints, 'seed': seed_smi, 'smiles': str(mol)})
+    # competing matches of one rule / of consecutive rules on a shared atom, built from the rule tables (round 5)
+    for lab, mol, _h in competition_instances(ctx):
+        ctx.dist('R:competing-matches:generated')
+        if not is_valid(mol):
+            ctx.dist('R:competing-matches:invalid-skipped')
+            continue
+        ints = wire.mol_to_ints(mol)
+        ctx.count(('R', 'compete', str(mol)))
+        ctx.dist('R:competing-matches')
+        for op, check, detail in competition_oracle(ints, ctx.rng, 3 if ctx.quick else 6):
+            for sg in (competition_signature(ints) if check == 'renumbering' else [sig(op, check)]):
+                ctx.fail(sg, f'{op} on {lab} [{str(mol)}]: {check}: {detail}',
+                         {'kind': 'compete', 'wire': ints, 'smiles': str(mol)})
     # non-default keyword options of the public operations
     op_budget = time.time() + (20 if ctx.quick else 150)
     opt_order = sorted(range(len(pool)), key=lambda i: 0 if pool[i][0].startswith(('azolium:', 'extra:', 'hetpair:', 'ion:', 'hand:')) else 1)
@@ -2411,6 +2560,17 @@ def probe(inp):
     if kind == 'options':
         f = [x for x in options_oracle(inp['wire'], inp['fix_tautomers'], True) if x[0] == inp.get('variant', x[0])]
         return bool(f), f'{inp.get("smiles")}: ' + (f'{f[0][0]}: {f[0][1]}: {f[0][2]}' if f else 'option variants agree with the default call')
+    if kind in ('compete', 'compete-smiles'):
+        import random as _r
+        if kind == 'compete-smiles':
+            from chython import smiles
+            ints = wire.mol_to_ints(smiles(inp['smiles']))
+        else:
+            ints = inp['wire']
+        if 'std' not in _state:
+            _state.update(zip(('std', 'chg', 'pats'), gen_rules.tables()))
+        f = [x for x in competition_oracle(ints, _r.Random(0), 8) if x[1] == 'renumbering']
+        return bool(f), f'{inp.get("smiles")}: ' + (f'{f[0][0]}: {f[0][2]}' if f else 'numbering independent')
     if kind == 'twice':
         f = twice_oracle(inp['wire'], inp['op'])
         return bool(f), f'{inp["op"]} twice on {inp.get("smiles")}: ' + (f[0][1] if f else 'second call changes nothing')
